@@ -150,6 +150,7 @@ package tensor
 //@   ensures [err_iff] len(slices) <= n ==> ((err != nil) <==> (exists i :: 0 <= i && i < n && !slValid(slAt(slices, i), ap.shape[i])))
 //@   ensures [start] err == nil ==> ndStart == startOff(ap, slices, n, n)
 //@   ensures [end] err == nil ==> ndEnd == endCut(ap, slices, size, n, n)
+//@   ensures [window] err == nil ==> 0 <= ndStart && ndEnd <= size
 //@   ensures [scalar] err == nil && ndEnd - ndStart == 1 ==> len(newAP.shape) == 0 && len(newAP.strides) == 0
 //@   ensures [rank] err == nil && ndEnd - ndStart != 1 && allRegular(sh, slices, n) ==> len(newAP.shape) == nkept(sh, slices, n) && len(newAP.strides) == nkept(sh, slices, n)
 //@   ensures [shape] err == nil && ndEnd - ndStart != 1 && allRegular(sh, slices, n) ==> (forall i :: 0 <= i && i < n && !aDropped(sh, slices, i) ==> newAP.shape[nkept(sh, slices, i)] == aLen(sh, slices, i) && newAP.strides[nkept(sh, slices, i)] == aStride(ap, slices, i))
@@ -164,6 +165,7 @@ package tensor
 //@   loop 0 invariant [vals] forall j :: 0 <= j && j < n && j < i ==> newShape[j] == cLen(sh, slices, j) && newStrides[j] == aStride(ap, slices, j) && slValid(slAt(slices, j), ap.shape[j])
 //@   loop 0 invariant [rest] forall j :: 0 <= j && j < n && i <= j ==> newShape[j] == ap.shape[j]
 //@   loop 0 split i 0 n
+//@   loop 0 invariant [win] 0 <= ndStart && ndEnd <= size
 //@   loop 0 invariant [off] ndStart == startOff(ap, slices, n, i) && ndEnd == endCut(ap, slices, size, n, i)
 
 // Shape.S is the shape-only calculator: it must predict exactly what AP.S produces (C13).
